@@ -68,7 +68,7 @@ def make_job(ctx, idx, spec):
     rng.shuffle(liborder)
     return {'srcdir': os.path.join(d, 'src'), 'builddir': os.path.join(d, 'build'), 'log': os.path.join(d, 'events.log'),
             'jitter': os.path.join(d, 'jitter'), 'wrapper': os.path.join(ctx.work, 'jitwrap.sh'), 'stems': stems,
-            'liborder': liborder, 'out': os.path.join(d, 'result.json'), 'scale': spec.get('scale', 0.01),
+            'liborder': liborder, 'out': os.path.join(d, 'result.json'), 'scale': spec.get('scale', 0.006),
             'runs': [{'W': w, 'seed': s, 'scen': spec['scen']} for (w, s) in spec['runs']]}
 
 
@@ -167,7 +167,8 @@ def run(ctx):
         if r.invariant_violated != 'LinkAfterAll':
             raise MachineryError(f'negative control MC_JitBuild_stale did not violate LinkAfterAll:\n{r.tail(30)}')
         ctx.cover['negative_control_stale_qtask'] = 'LinkAfterAll violated as expected'
-    mc_future = pool.submit(mc_all)
+    # development only (mutation testing of the conformance part): VERIF_DEV_SKIP_MC=1 skips the spec-level run
+    mc_future = pool.submit((lambda: None) if os.environ.get('VERIF_DEV_SKIP_MC') else mc_all)
 
     # 2. cases
     specs = []
@@ -194,10 +195,10 @@ def run(ctx):
         for i in range(nrand):
             rs = ctx.seed * 100003 + 50000 + i
             rng = random.Random(rs)
-            scen = ('plain', 'plain', 'extern', 'plain', 'alias', 'rebuild')[i % 6]
+            scen = ('rebuild', 'alias', 'plain', 'extern', 'plain', 'plain')[i % 6]
             dag = relabel(random_dag(rng, 4, 8 if quick else 10, scen == 'extern'), rng)
             ws = rng.sample(range(2, 9), 2 if quick else 3)
-            specs.append({'dag': dag, 'scen': scen, 'rseed': rs, 'scale': rng.choice([0.005, 0.01, 0.02]),
+            specs.append({'dag': dag, 'scen': scen, 'rseed': rs, 'scale': rng.choice([0.003, 0.006, 0.012]),
                           'runs': [(1, rs)] + [(w, rs + 7 * w) for w in ws]})
 
         # interleave the two families so that a budget cut does not remove one of them
@@ -214,7 +215,11 @@ def run(ctx):
     batches = [list(range(i, min(i + bsize, len(jobs)))) for i in range(0, len(jobs), bsize)]
     deadline = None if ctx.replay else ctx.t0 + (70 if quick else 900)
     with cf.ThreadPoolExecutor(max_workers=8) as ex:
-        bouts = list(ex.map(lambda a: run_batch(ctx, a[0], [jobs[i] for i in a[1]], deadline), enumerate(batches)))
+        # the first batches (they cover every scenario and both case families) are built whatever it costs;
+        # the rest only while the tier's build budget lasts (a loaded machine then checks fewer cases)
+        nmin = 4 if quick else 12
+        bouts = list(ex.map(lambda a: run_batch(ctx, a[0], [jobs[i] for i in a[1]], deadline if a[0] >= nmin else None),
+                            enumerate(batches)))
     outs = [o for bo in bouts for o in bo]
     skipped = sum(o is None for o in outs)
     ctx.cover['cases_not_built_for_budget'] = skipped
@@ -256,9 +261,12 @@ def run(ctx):
                       payload)
     mc_future.result()
     pool.shutdown()
-    if machinery:
+    ctx.cover['model_mismatches'] = len(machinery)
+    if machinery and not ctx.violations:
         raise MachineryError(f'{len(machinery)} real build logs are not behaviours of the JitBuild model '
                              f'(model clause, not a property clause); first: {machinery[0]}')
+    if machinery:
+        print(f'WARNING: {len(machinery)} recorded runs are not behaviours of the model (M clauses), first: {machinery[0][:2]}', file=sys.stderr)
 
     ctx.cover['builds_per_scenario'] = {f'{a}:{b}': n for (a, b), n in sorted(per.items())}
     ctx.cover['distinct_dags_built'] = len({json.dumps(s['dag'], sort_keys=True) for s in specs})
